@@ -215,7 +215,9 @@ def checkSend (n max : Nat) (t : Transmit) (raised : Bool) (stream : Bytes) : Op
     if stream ≠ [] then some "error-after-output"
     else
       let whole := TmuxUnwrap.wrapN n (render (dropKey 109 (fields (.transmit t)) ++ [(109, flag (t.more == some true))]) t.data)
-      if whole.length ≤ max then some "rejects-sufficient-limit" else none
+      -- a limit exceeding the size of the whole transfer sent as ONE escape code by 64 bytes or more
+      -- is certainly not "too small to carry any payload"
+      if whole.length + 64 ≤ max then some "rejects-sufficient-limit" else none
   else
     match TmuxUnwrap.splitStream stream with
     | none => some "stream-malformed"
